@@ -72,7 +72,7 @@ class Spec(object):
         ref_obs = observation(res.Q, [])
         ref_clock = res.Q.current_time
         ref_stats = stats(res.Q)
-        inst = sorted(set(t for t in w.instants if 0 < t < T))
+        inst = sorted(set(float(t) for t in w.instants if 0 < t < T))
         pts = sorted(set(inst + [(a + b) / 2.0 for a, b in zip([0.0] + inst, inst + [T])]))
         pts = [p for p in pts if 0 < p < T]
         cutsets = [(p,) for p in pts]
@@ -150,6 +150,19 @@ def focused(tier):
     mk("ps", [node(c="inf", ps=True)], {"A": klass([A1], [S1])})
     mk("slotted", [node(c={"slotted": {"slots": [0.93, 1.71, 2.57], "sizes": [1, 2, 1], "capacitated": False, "preempt": False}})], {"A": klass([A1], [S1])})
     mk("inf servers", [node(c="inf")], {"A": klass([A1], [S1])})
+    # the final horizon inside a zero-server shift (utilisation undefined there), also in exact arithmetic
+    for pre in (False, "resume"):
+        for ex in (None, 26):
+            kw = {"exact": ex} if ex else {}
+            mk("sched preempt=%s, T in the zero-server shift%s" % (pre, ", exact=26" if ex else ""),
+               [node(c={"sched": {"numbers": [1, 0, 2], "ends": [1.13, 1.97, 3.31], "preempt": pre}})], {"A": klass([A1], [S1])}, T=4.81, **kw)
+    mk("sched [1,0] overtime, exact=26", [node(c={"sched": {"numbers": [1, 0], "ends": [2.13, 3.47], "preempt": False}})], {"A": klass([A1], [[1.61, 2.23]])},
+       T=6.3, exact=26)
+    # the documented server priority function (least busy time first) reads a statistic that a pause touches
+    mk("c=2 least-busy server first", [node(c=2, server_priority="less_busy")], {"A": klass([[0.47, 1.37]], [S1])})
+    mk("c=2 least-utilised server first", [node(c=2, server_priority="less_utilised")], {"A": klass([[0.47, 1.37]], [S1])})
+    out[-1]["features"] = sorted(out[-1]["features"] + ["srvprio_reads_total_time"])
+    mk("c=3 least-busy server first", [node(c=3, server_priority="less_busy")], {"A": klass([[0.47, 0.29]], [S1])}, T=4.1)
     return out
 
 
